@@ -74,16 +74,36 @@ def run(prog):
             # (b) a return alternative reached with the lookup known to be None
             rty = (f.locals[0] or {}).get("s", "") if f.locals else ""
             honest = rty.startswith("std::option::Option") or rty.startswith("std::result::Result") or rty.startswith("Option<") \
-                or rty.startswith("Result<") or rty == "bool" or rty == "()"
-            if not honest and not errs and te.ret is not None:
-                for leaf, facts in alts(te, te.ret):
-                    none_here = False
-                    for c, v in facts:
-                        if isinstance(c, tuple) and c and c[0] == "discr" and gk in key_of(c[1]) and (v == "0" or v == ("not", ("1",))):
-                            none_here = True
-                    if none_here:
-                        errs.append("when the label is outside %s the function still returns `%s`: a made-up entry shared by every "
-                                    "unknown label" % (tab, key_of(leaf)[:50]))
+                or rty.startswith("Result<") or rty == "bool"
+            if not honest and not errs:
+                # (b) the `None` outcome of the lookup reaches a normal return
+                cfg = f.cfg
+                for sb, (c, vm) in te.switch_term.items():
+                    if not (isinstance(c, tuple) and c and c[0] == "discr" and key_of(c[1]) == gk):
+                        continue
+                    t = f.blocks[sb]["term"]
+                    none_tgts = [s_ for v, s_ in t["targets"] if v == "0"]
+                    if not none_tgts and t.get("otherwise") is not None and all(v != "0" for v, _ in t["targets"]):
+                        none_tgts = [t["otherwise"]]
+                    for nt in none_tgts:
+                        reach = cfg.reachable_from(nt) | {nt}
+                        if not any(r in reach for r in cfg.returns):
+                            continue
+                        # the missing case may be *repaired* instead of papered over: the table is grown on that path
+                        some_tgts = {s_ for v, s_ in t["targets"] if v != "0"}
+                        only_none = reach - set().union(*[cfg.reachable_from(x) | {x} for x in some_tgts]) if some_tgts else reach
+                        grows = any(c2.bb in only_none and c2.callee.name in ("resize", "resize_with", "push", "extend", "insert") and
+                                    c2.args and any(k in lt.fieldkeys(c2.args[0]) for k in ks) for c2 in te.calls)
+                        if grows:
+                            continue
+                        if rty == "()":
+                            errs.append("when the label is outside %s the function returns without doing anything: the entry of an "
+                                        "unknown label is taken to be empty" % tab)
+                        else:
+                            errs.append("when the label is outside %s the function still returns a value: a made-up entry shared by "
+                                        "every unknown label" % tab)
+                        break
+                    if errs:
                         break
             out.append(inst("DF", key, VIOLATION if errs else OK, f, cs.line,
                             "; ".join(dict.fromkeys(errs)) if errs else
